@@ -143,7 +143,7 @@ class World:
             d = a['dom'][i + (4 if which == 'end' else 0)]
             if which == 'single':      # one record is both START and END word source: satisfy both domains
                 d0, d1 = a['dom'][i], a['dom'][i + 4]
-                if d0 is None or d1 is None or d0 == 'sid':
+                if d0 is None or d1 is None or d0 in ('sid', 'ioctl'):
                     d = d1 if d0 is None else d0
                 else:
                     d = [v for v in d0 if v in d1] or d0
@@ -157,6 +157,10 @@ class World:
                     out.append(self.rnd.choice([0, 1, 2, (1 << 31), (1 << 32) - 1, (1 << 63), MASK64, 7]))
             elif d == 'sid':
                 out.append(0)
+            elif d == 'ioctl':         # defined direction bits, any length / group / number, any upper half
+                r = self.rnd
+                req = (r.choice([1, 2, 4, 6, 7]) << 29) | (r.randrange(8192) << 16) | (r.randrange(256) << 8) | r.randrange(256)
+                out.append(req | (r.choice([0, 0, 0xffffffff, r.getrandbits(32)]) << 32))
             else:
                 out.append(self.rnd.choice(d))
         return tuple(out)
